@@ -509,6 +509,36 @@ def run(ck: Check) -> int:
                     if (after, log_after) != (res1, log1):
                         ck.report(Failing('run after a raising hook differs from the uninterrupted run', inp, log1, log_after))
                     sr.histogram['hook-raise'] = sr.histogram.get('hook-raise', 0) + 1
+                # an iterator created but NOT started while the same object runs again: each run — the parked one too, when it is finally
+                # consumed — calls on_reset once, first, restarts the counter and yields the complete sequence (added after seeded change
+                # C15i: imatch() returned the walk generator directly, so on_reset / the counter restart happened when the iterator was created)
+                sc = case.new_script(**kw)
+                obj = case.obj(sc)
+                try:
+                    with common.time_limit(20):
+                        sc.log = []
+                        parked = obj.imatch()
+                        log_created = list(sc.log)
+                        sc.log = []
+                        between = obj.match()
+                        log_between = list(sc.log)
+                        sk_between = obj.get_skipped()
+                        sc.log = []
+                        late = [v for v in parked]
+                        log_late = list(sc.log)
+                        sk_late = obj.get_skipped()
+                except common.CallTimeout:
+                    continue
+                sr.evaluations += 1
+                inp = {**desc, 'history': 'it = imatch(); match(); list(it)'}
+                if log_created:
+                    ck.report(Failing('creating an imatch() iterator already invoked hooks (a run starts when its iterator is first advanced)', inp, [], log_created[:6]))
+                if (between, log_between, sk_between) != (res1, log1, sk1):
+                    ck.report(Failing('match() while an unstarted imatch() iterator of the same object exists differs from the uninterrupted run', inp, [log1, sk1], [log_between, sk_between]))
+                if (late, log_late, sk_late) != (res1, log1, sk1):
+                    ck.report(Failing('an imatch() iterator consumed after another run of the same object: on_reset not first / counter not restarted / different sequence',
+                                      inp, [log1[:8], sk1], [log_late[:8], sk_late]))
+                sr.histogram['parked-iterator'] = sr.histogram.get('parked-iterator', 0) + 1
         sr.histogram['files-visited-after-the-observing-poll'] = overs
         sr.distinct = sr.evaluations
     ck.search('property-on-real-code', s_prop)
